@@ -195,12 +195,22 @@ def build(model, db):
             name = Req(str)
         class Sub1(Base):
             x = Req(int); y = Opt(str); others = Set('Other')
+            target = Req('Target', reverse='subs')                 # a composite reference declared in a SUBCLASS: both columns must be nullable
+            otarget = Opt('Target', reverse='osubs')
         class Sub2(Sub1):
             z = Req(float)
         class Other(db.Entity):
             ref = Req(Sub1)
-        return dict(tables={'Base': dict(id=(1, 1), classtype=(1, 0), name=(1, 0), x=(0, 0), y=(0, 0), z=(0, 0)), 'Other': dict(id=(1, 1), ref=(1, 0))},
-                    unique={}, indexes={'Other': [('ref',)]}, fks={'Other': [(('ref',), 'Base')]})
+            t = Req('Target', reverse='others')                    # the same in a root entity: NOT NULL
+            ot = Opt('Target', reverse='oothers')
+        class Target(db.Entity):
+            a = Req(int); b = Req(str); PK(a, b)
+            subs = Set(Sub1, reverse='target'); osubs = Set(Sub1, reverse='otarget'); others = Set(Other, reverse='t'); oothers = Set(Other, reverse='ot')
+        return dict(tables={'Base': dict(id=(1, 1), classtype=(1, 0), name=(1, 0), x=(0, 0), y=(0, 0), z=(0, 0), target_a=(0, 0), target_b=(0, 0), otarget_a=(0, 0), otarget_b=(0, 0)),
+                            'Other': dict(id=(1, 1), ref=(1, 0), t_a=(1, 0), t_b=(1, 0), ot_a=(0, 0), ot_b=(0, 0)), 'Target': dict(a=(1, 1), b=(1, 2))},
+                    unique={}, indexes={'Other': [('ref',), ('t_a', 't_b'), ('ot_a', 'ot_b')], 'Base': [('target_a', 'target_b'), ('otarget_a', 'otarget_b')]},
+                    fks={'Other': [(('ref',), 'Base'), (('t_a', 't_b'), 'Target'), (('ot_a', 'ot_b'), 'Target')],
+                         'Base': [(('target_a', 'target_b'), 'Target'), (('otarget_a', 'otarget_b'), 'Target')]})
     if model == 'custom_names':
         class C(db.Entity):
             _table_ = 'custom_table'
